@@ -61,3 +61,6 @@ Proof. reflexivity. Qed.
 Lemma llast_app {A} (l : list A) x : llast (l ++ [x]) = Some x.
 Proof. unfold llast. now rewrite rev_app_distr. Qed.
 Definition lget0 {A} (l : list A) : result A := match l with [] => Err IndexError | x :: _ => Ok x end.
+Definition lgetlast {A} (l : list A) : result A := match rev l with [] => Err IndexError | x :: _ => Ok x end.
+(* math.ceil(a / b) for non-negative Python ints (exact; float rounding of huge quotients is not modelled) *)
+Definition zceil_div (a b : Z) : Z := ((a + b - 1) / b)%Z.
